@@ -72,6 +72,19 @@ Theorem c10_lookup_when_handled : forall E ops k,
 Proof. exact code_act_targets_holder. Qed.
 Print Assumptions c10_lookup_when_handled.
 
+(** Cancel handling does not depend on a graceful shutdown being in progress ([client_entrypoint]
+    passes [admin_only] to [Client::startup] only; the CancelQuery arm does not look at it): what a
+    CancelRequest does is [cancel_out] whether or not [Shutdown] happened, and [Shutdown] changes
+    neither the map nor who borrows what — a client whose transaction is allowed to finish can
+    cancel it exactly as before ([c10_cancel_exact] holds in every state, [Shutdown] is one of the
+    ops of its schedules). *)
+Theorem c10_shutdown_irrelevant : forall E ops k,
+  cancel_eff code_variant (run E code_variant ops) k = cancel_out (run E code_variant ops) k /\
+  cancel_out (step E code_variant (run E code_variant ops) Shutdown) k = cancel_out (run E code_variant ops) k /\
+  sv (step E code_variant (run E code_variant ops) Shutdown) = sv (run E code_variant ops).
+Proof. exact code_shutdown_irrelevant. Qed.
+Print Assumptions c10_shutdown_irrelevant.
+
 (* ================================================================ every order / variant *)
 
 (** What is sent to the server is a server connection's own key ... *)
@@ -159,7 +172,8 @@ Print Assumptions c10_entry_first_strong.
 
 (** Completeness outside the class "a CancelRequest with this key was already served since the
     checkout" (computable guard), for every variant ... *)
-Theorem c10_cancel_reaches_holder_guarded : forall E v, key_inj E -> reload_prunes v = false -> forall ops c s,
+Theorem c10_cancel_reaches_holder_guarded : forall E v, key_inj E -> reload_prunes v = false ->
+  claim_needs_positive_pid v = false -> forall ops c s,
   sv (run E v ops) s = HeldBy c -> known_cancel_once E v ops c = false ->
   cancel_out (run E v ops) (key E c) = Contact (tgt E s).
 Proof. exact reaches_holder_guarded. Qed.
@@ -167,7 +181,7 @@ Print Assumptions c10_cancel_reaches_holder_guarded.
 
 (** ... and unguarded as soon as serving a CancelRequest leaves the map alone. *)
 Theorem c10_cancel_drop_inert_complete : forall E v, key_inj E -> cancel_drop_removes v = false ->
-  reload_prunes v = false -> forall ops c s, sv (run E v ops) s = HeldBy c ->
+  reload_prunes v = false -> claim_needs_positive_pid v = false -> forall ops c s, sv (run E v ops) s = HeldBy c ->
   cancel_out (run E v ops) (key E c) = Contact (tgt E s).
 Proof. exact reaches_holder. Qed.
 Print Assumptions c10_cancel_drop_inert_complete.
@@ -195,29 +209,29 @@ Print Assumptions c10_holder_survives_reloads.
 (** F13, the exit window: with the order "connection back to the pool, then entry removed"
     another client borrows the connection and a CancelRequest with the FIRST client's key is
     forwarded to it. *)
-Theorem c10_exit_window_refuted : forall cd rp cr la,
+Theorem c10_exit_window_refuted : forall cd rp cr la sr cp,
   exists ops c1 c2 s, c1 <> c2 /\ key ex_env c1 <> key ex_env c2 /\
-    sv (run ex_env (mkVariant cd false rp cr la) ops) s = HeldBy c2 /\
-    cphase (cl (run ex_env (mkVariant cd false rp cr la) ops) c1) = Exiting /\
-    cancel_out (run ex_env (mkVariant cd false rp cr la) ops) (key ex_env c1) = Contact (tgt ex_env s).
+    sv (run ex_env (mkVariant cd false rp cr la sr cp) ops) s = HeldBy c2 /\
+    cphase (cl (run ex_env (mkVariant cd false rp cr la sr cp) ops) c1) = Exiting /\
+    cancel_out (run ex_env (mkVariant cd false rp cr la sr cp) ops) (key ex_env c1) = Contact (tgt ex_env s).
 Proof. exact exit_window_refuted. Qed.
 Print Assumptions c10_exit_window_refuted.
 
 (** F28, cancel once: when the drop of the value that served a CancelRequest removes the key it
     carried, a second CancelRequest during the same checkout is silently ignored. *)
-Theorem c10_cancel_once_refuted : forall ef rp cr la,
-  exists ops c s, sv (run ex_env (mkVariant true ef rp cr la) ops) s = HeldBy c /\
-    outcomes ex_env (mkVariant true ef rp cr la) ops = [Contact (tgt ex_env s)] /\
-    cancel_out (run ex_env (mkVariant true ef rp cr la) ops) (key ex_env c) = Silent.
+Theorem c10_cancel_once_refuted : forall ef rp cr la sr cp,
+  exists ops c s, sv (run ex_env (mkVariant true ef rp cr la sr cp) ops) s = HeldBy c /\
+    outcomes ex_env (mkVariant true ef rp cr la sr cp) ops = [Contact (tgt ex_env s)] /\
+    cancel_out (run ex_env (mkVariant true ef rp cr la sr cp) ops) (key ex_env c) = Silent.
 Proof. exact cancel_once_refuted. Qed.
 Print Assumptions c10_cancel_once_refuted.
 
 (** Reload pruning (not in the code; the mutant the check must notice): if a configuration
     reload dropped the entries that point to an address which left the configuration, a client
     still running a statement on the old pool's connection could no longer cancel it. *)
-Theorem c10_reload_prune_refuted : forall cd ef cr la,
-  exists ops c s, sv (run ex_env (mkVariant cd ef true cr la) ops) s = HeldBy c /\
-    cancel_out (run ex_env (mkVariant cd ef true cr la) ops) (key ex_env c) = Silent.
+Theorem c10_reload_prune_refuted : forall cd ef cr la sr cp,
+  exists ops c s, sv (run ex_env (mkVariant cd ef true cr la sr cp) ops) s = HeldBy c /\
+    cancel_out (run ex_env (mkVariant cd ef true cr la sr cp) ops) (key ex_env c) = Silent.
 Proof. exact reload_prune_refuted. Qed.
 Print Assumptions c10_reload_prune_refuted.
 
@@ -225,27 +239,45 @@ Print Assumptions c10_reload_prune_refuted.
     connection was refused were retried with the target copied at lookup time, it would reach the
     session after it changed hands — c1 holds nothing any more, its key is dead in the map, and
     the packet arrives at the session now borrowed by c2. *)
-Theorem c10_late_delivery_refuted : forall cd ef rp la,
+Theorem c10_late_delivery_refuted : forall cd ef rp la sr cp,
   exists ops c1 c2 s, c1 <> c2 /\ key ex_env c1 <> key ex_env c2 /\
-    held (cl (run ex_env (mkVariant cd ef rp true la) ops) c1) = None /\
-    cancel_out (run ex_env (mkVariant cd ef rp true la) ops) (key ex_env c1) = Silent /\
-    sv (run ex_env (mkVariant cd ef rp true la) ops) s = HeldBy c2 /\
-    late_out (run ex_env (mkVariant cd ef rp true la) ops) = Contact (tgt ex_env s).
+    held (cl (run ex_env (mkVariant cd ef rp true la sr cp) ops) c1) = None /\
+    cancel_out (run ex_env (mkVariant cd ef rp true la sr cp) ops) (key ex_env c1) = Silent /\
+    sv (run ex_env (mkVariant cd ef rp true la sr cp) ops) s = HeldBy c2 /\
+    late_out (run ex_env (mkVariant cd ef rp true la sr cp) ops) = Contact (tgt ex_env s).
 Proof. exact late_delivery_refuted. Qed.
 Print Assumptions c10_late_delivery_refuted.
 
 (** Stale lookup (not in the code; the mutant the check must notice): if the target were looked up
     when the connection is accepted and used when [handle] finally runs, a request that waited in
     between would reach the session after it changed hands. *)
-Theorem c10_stale_lookup_refuted : forall cd ef rp cr,
+Theorem c10_stale_lookup_refuted : forall cd ef rp cr sr cp,
   exists ops c1 c2 s, c1 <> c2 /\ key ex_env c1 <> key ex_env c2 /\
-    held (cl (run ex_env (mkVariant cd ef rp cr true) ops) c1) = None /\
-    cancel_out (run ex_env (mkVariant cd ef rp cr true) ops) (key ex_env c1) = Silent /\
-    sv (run ex_env (mkVariant cd ef rp cr true) ops) s = HeldBy c2 /\
-    act_out (mkVariant cd ef rp cr true) (run ex_env (mkVariant cd ef rp cr true) ops) (key ex_env c1)
+    held (cl (run ex_env (mkVariant cd ef rp cr true sr cp) ops) c1) = None /\
+    cancel_out (run ex_env (mkVariant cd ef rp cr true sr cp) ops) (key ex_env c1) = Silent /\
+    sv (run ex_env (mkVariant cd ef rp cr true sr cp) ops) s = HeldBy c2 /\
+    act_out (mkVariant cd ef rp cr true sr cp) (run ex_env (mkVariant cd ef rp cr true sr cp) ops) (key ex_env c1)
       = Contact (tgt ex_env s).
 Proof. exact stale_lookup_refuted. Qed.
 Print Assumptions c10_stale_lookup_refuted.
+
+(** Shutdown refusal (not in the code; mutant): a holder's CancelRequest is dropped once the
+    graceful shutdown has begun although the map still leads to its session. *)
+Theorem c10_shutdown_refusal_refuted : forall cd ef rp cr la cp,
+  exists ops c s, sv (run ex_env (mkVariant cd ef rp cr la true cp) ops) s = HeldBy c /\
+    cancel_out (run ex_env (mkVariant cd ef rp cr la true cp) ops) (key ex_env c) = Contact (tgt ex_env s) /\
+    cancel_eff (mkVariant cd ef rp cr la true cp) (run ex_env (mkVariant cd ef rp cr la true cp) ops) (key ex_env c) = Silent.
+Proof. exact shutdown_refuted. Qed.
+Print Assumptions c10_shutdown_refusal_refuted.
+
+(** Claim only for positive pids (not in the code; mutant): with servers whose BackendKeyData pid
+    is negative the borrower's key reaches nothing.  ([c10_cancel_reaches_holder] and
+    [c10_cancel_exact] are for EVERY [E]: any i32 pid / secret, equal across backends or not.) *)
+Theorem c10_claim_positive_only_refuted : forall cd ef rp cr la sr,
+  exists ops c s, sv (run ex_env_neg (mkVariant cd ef rp cr la sr true) ops) s = HeldBy c /\
+    cancel_out (run ex_env_neg (mkVariant cd ef rp cr la sr true) ops) (key ex_env_neg c) = Silent.
+Proof. exact claim_refuted. Qed.
+Print Assumptions c10_claim_positive_only_refuted.
 
 (** For every variant that reads the map in [handle]: nothing is remembered from accept time. *)
 Theorem c10_lookup_in_handle_no_memory : forall E v, lookup_at_accept v = false -> forall ops k,
@@ -313,7 +345,7 @@ Proof. vm_compute. reflexivity. Qed.
 Example ex_reload_idle_retired :
   sv (run ex_env code_variant [Checkout 0 0; ReleaseNormal 0 true; Reload [0; 1]; Checkout 1 0]) 0 = Closed.
 Proof. vm_compute. reflexivity. Qed.
-Example ex_reload_mutant : outcomes ex_env (mkVariant false true true false false)
+Example ex_reload_mutant : outcomes ex_env (mkVariant false true true false false false false)
   [Checkout 0 0; Cancel k0; Reload [0]; Cancel k0] = [Contact t0; Silent].
 Proof. vm_compute. reflexivity. Qed.
 
@@ -321,7 +353,7 @@ Proof. vm_compute. reflexivity. Qed.
 Example ex_refused_code : outcomes ex_env code_variant
   (late_ops ++ [DeliverLate; Cancel k0; Cancel k1]) = [Silent; Silent; Silent; Contact t0].
 Proof. vm_compute. reflexivity. Qed.
-Example ex_refused_mutant : outcomes ex_env (mkVariant false true false true false)
+Example ex_refused_mutant : outcomes ex_env (mkVariant false true false true false false false)
   (late_ops ++ [DeliverLate; Cancel k0; Cancel k1]) = [Silent; Contact t0; Silent; Contact t0].
 Proof. vm_compute. reflexivity. Qed.
 
@@ -329,8 +361,22 @@ Proof. vm_compute. reflexivity. Qed.
 Example ex_stale_code : outcomes ex_env code_variant
   (stale_ops ++ [CancelAct k0; Cancel k1; CancelAccept k1; CancelAct k1]) = [Silent; Contact t0; Contact t0].
 Proof. vm_compute. reflexivity. Qed.
-Example ex_stale_mutant : outcomes ex_env (mkVariant false true false false true)
+Example ex_stale_mutant : outcomes ex_env (mkVariant false true false false true false false)
   (stale_ops ++ [CancelAct k0; Cancel k1; CancelAccept k1; CancelAct k1]) = [Contact t0; Contact t0; Contact t0].
+Proof. vm_compute. reflexivity. Qed.
+
+(** shutdown while a statement runs; servers with negative BackendKeyData *)
+Example ex_shutdown_code : outcomes ex_env code_variant
+  [Checkout 0 0; Cancel k0; Shutdown; Cancel k0; Cancel k1; ReleaseNormal 0 true; Cancel k0] = [Contact t0; Contact t0; Silent; Silent].
+Proof. vm_compute. reflexivity. Qed.
+Example ex_shutdown_mutant : outcomes ex_env (mkVariant false true false false false true false)
+  [Checkout 0 0; Cancel k0; Shutdown; Cancel k0] = [Contact t0; Silent].
+Proof. vm_compute. reflexivity. Qed.
+Example ex_negative_pid_code : outcomes ex_env_neg code_variant
+  [Checkout 0 0; Cancel k0; ReleaseNormal 0 true; Cancel k0] = [Contact (tgt ex_env_neg 0); Silent].
+Proof. vm_compute. reflexivity. Qed.
+Example ex_negative_pid_mutant : outcomes ex_env_neg (mkVariant false true false false false false true)
+  [Checkout 0 0; Cancel k0] = [Silent].
 Proof. vm_compute. reflexivity. Qed.
 
 (** the guards separate exactly these schedules *)
